@@ -30,6 +30,14 @@ pub struct SchedSpec {
     pub max_yields: u32,
     /// number of priority change points (Priority policy)
     pub change_points: u32,
+    /// tokio's event_interval: how many tasks the scheduler runs before it polls the root
+    /// future / timers again (61 is tokio's default; 1 and 1000 are the extremes explored)
+    #[serde(default = "default_event_interval")]
+    pub event_interval: u32,
+}
+
+fn default_event_interval() -> u32 {
+    61
 }
 
 #[derive(Clone, Copy, Debug, PartialEq, Eq, PartialOrd, Ord, Serialize, Deserialize)]
@@ -91,6 +99,8 @@ pub struct Shared {
     change_at: Vec<u64>,
     pub probes: BTreeMap<&'static str, u64>,
     pub capture_backtraces: bool,
+    /// raw tokio id of the task running the server's main loop (set by the harness)
+    pub main_task_raw: u64,
 }
 
 pub type SharedRef = Rc<RefCell<Shared>>;
@@ -143,6 +153,7 @@ impl Shared {
             change_at,
             probes: BTreeMap::new(),
             capture_backtraces: false,
+            main_task_raw: 0,
         }
     }
 
@@ -171,6 +182,14 @@ impl Shared {
         self.lock_ix.insert(addr, n);
         self.lock_names.push(short_type(ty));
         n
+    }
+
+    pub fn main_task(&self) -> Option<usize> {
+        self.task_ix.get(&self.main_task_raw).copied()
+    }
+
+    pub fn lock_named(&self, name: &str) -> Option<usize> {
+        self.lock_names.iter().position(|n| n == name)
     }
 
     pub fn probe(&mut self, name: &'static str) {
